@@ -270,16 +270,52 @@ def _get_path(grid, obj, paths):
     try:
         for i, path in enumerate(paths):
             obj = obj[path]
-            if i != len(paths)-1 and isinstance(obj, Ref):
+            if i != len(paths)-1:
+                if not isinstance(obj, Ref):
+                    # Only references can be followed
+                    return NOT_FOUND
                 obj = grid[obj.name]  # Follow the reference
         return obj  # It's a value at this time
     except KeyError:
         return NOT_FOUND
 
 
+_COMPARE_OPS = {
+    '==': lambda x, y: x == y,
+    '!=': lambda x, y: x != y,
+    '<': lambda x, y: x < y,
+    '<=': lambda x, y: x <= y,
+    '>': lambda x, y: x > y,
+    '>=': lambda x, y: x >= y,
+}
+
+
+def _compare(op, left, right):
+    """
+    Compare a tag value with a literal.  A comparison on an absent tag or
+    between values that cannot be compared is false, not an error.
+    """
+    if (left is NOT_FOUND) or (right is NOT_FOUND):
+        return False
+    if isinstance(left, bool) != isinstance(right, bool):
+        # A boolean is not a number
+        return op == '!='
+    try:
+        return bool(_COMPARE_OPS[op](left, right))
+    except TypeError:
+        # Incomparable kinds (or quantities with different units)
+        return op == '!='
+
+
 def _generate_filter_in_python(node, def_filter):
     if isinstance(node, FilterPath):
         def_filter.append("_get_path(_grid, _entity, %s)" % node.path)
+    elif isinstance(node, FilterBinary) and (node.op in _COMPARE_OPS):
+        def_filter.append("_compare(%r, " % node.op)
+        def_filter.extend(_generate_filter_in_python(node.left, []))
+        def_filter.append(", ")
+        def_filter.extend(_generate_filter_in_python(node.right, []))
+        def_filter.append(")")
     elif isinstance(node, FilterBinary):
         def_filter.append("(")
         def_filter.extend(_generate_filter_in_python(node.left, []))
